@@ -259,6 +259,18 @@ Theorem refresh_axfr_style : forall v z zs table recs ws,
 Proof. exact XfrRefresh.refresh_axfr_style. Qed.
 Print Assumptions refresh_axfr_style.
 
+(* dns.query.inbound_xfr, udp_mode TRY_FIRST / ONLY: the UDP answer is the bare SOA ("use TCP") *)
+Theorem try_first_falls_back : forall v0 chain z tbu tbt wu recs ws,
+  chain_ok v0 chain -> zeq z (zone_of v0) ->
+  find_row tbu (Some (v_serial v0)) = Some [wu] ->
+  header_ok tIXFR wu -> w_records wu = [soa_rr (last chain v0)] ->
+  find_row tbt (Some (v_serial v0)) = Some ws ->
+  ixfr_response v0 chain recs -> chunking tIXFR recs ws ->
+  (exists z', xfr_top z 1 tbu tbt = Ok (0, z') /\ zeq z' (zone_of (last chain v0)))
+  /\ xfr_top z 2 tbu tbt = Ok (eUseTCP, z).
+Proof. exact XfrRefresh.try_first_falls_back. Qed.
+Print Assumptions try_first_falls_back.
+
 (* non-vacuity: concrete instances of the hypotheses *)
 Example ex_backwards :
   let w := mkW 0 [(0, tIXFR)] [mkRR 0 1 6 0 3600 5; mkRR 1 1 1 0 300 7] in
